@@ -296,6 +296,10 @@ func (x *decoX) stmt(s ast.Stmt, g gctx) {
 			x.stmt(el, g.with(cond, true))
 		}
 	case *ast.RangeStmt:
+		// for name, decs := range f.decorations[k] { switch name { case "P": out.Decs.P = decs … } }
+		if x.decsRange(s, g) {
+			return
+		}
 		// a loop over a literal list of expressions is its body once per element
 		if cl, isLit := s.X.(*ast.CompositeLit); isLit && s.Value != nil && (s.Key == nil || c.ExprStr(s.Key) == "_") && len(cl.Elts) > 0 && len(cl.Elts) <= 8 {
 			if id, isID := s.Value.(*ast.Ident); isID && c.Info.Defs[id] != nil {
@@ -530,6 +534,76 @@ func (x *decoX) assign(s *ast.AssignStmt, g gctx) {
 		ev.Src = p
 	}
 	x.emit(ev, g, s.Pos())
+}
+
+// decsRange recognises the decorations of a node copied in a loop over its map of points:
+//
+//	for name, decs := range f.decorations[n] {
+//		switch name {
+//		case "Start":
+//			out.Decs.Start = decs
+//		…
+//		}
+//	}
+//
+// Every point name is a distinct constant and its clause stores the loop's value into one field:
+// a map has each key once, so each field is written at most once, whatever the iteration order.
+func (x *decoX) decsRange(s *ast.RangeStmt, g gctx) bool {
+	c := x.c
+	ix, ok := ast.Unparen(s.X).(*ast.IndexExpr)
+	if !ok || s.Tok != token.DEFINE {
+		return false
+	}
+	if p, ok := c.Path(ix.X, x.recv); !ok || p != "decorations" {
+		return false
+	}
+	kid, ok1 := s.Key.(*ast.Ident)
+	vid, ok2 := s.Value.(*ast.Ident)
+	if !ok1 || !ok2 || len(s.Body.List) != 1 {
+		return false
+	}
+	sw, ok := s.Body.List[0].(*ast.SwitchStmt)
+	if !ok || sw.Init != nil || sw.Tag == nil {
+		return false
+	}
+	if tid, ok := ast.Unparen(sw.Tag).(*ast.Ident); !ok || c.ObjOf(tid) != c.Info.Defs[kid] {
+		return false
+	}
+	type pt struct {
+		name, field string
+		pos         token.Pos
+	}
+	var pts []pt
+	seen := map[string]bool{}
+	for _, cl := range sw.Body.List {
+		cc := cl.(*ast.CaseClause)
+		if len(cc.List) != 1 || len(cc.Body) != 1 {
+			return false
+		}
+		name, ok := StringLit(cc.List[0])
+		if !ok || seen[name] {
+			return false
+		}
+		seen[name] = true
+		as, ok := cc.Body[0].(*ast.AssignStmt)
+		if !ok || as.Tok != token.ASSIGN || len(as.Lhs) != 1 || len(as.Rhs) != 1 {
+			return false
+		}
+		rid, ok := as.Rhs[0].(*ast.Ident)
+		if !ok || c.ObjOf(rid) != c.Info.Defs[vid] {
+			return false
+		}
+		field, ok := c.Path(as.Lhs[0], x.out)
+		if !ok {
+			return false
+		}
+		pts = append(pts, pt{name, field, as.Pos()})
+	}
+	key := x.operand(ix.Index)
+	for _, p := range pts {
+		x.emit(Event{Kind: KDec, Name: p.name, Field: p.field, Src: "decorations[" + key + "]"}, g, p.pos)
+	}
+	return true
 }
 
 // decsBlock recognises
